@@ -5,7 +5,7 @@ A message is described by a plain-JSON dict `spec`; every key is optional and th
     subject        [style, text]    style in SUBJECT_STYLES; text is the decoded subject
     from           [name|None, addr]                name None -> bare addr-spec, "" -> "<addr>", str -> display name
     to cc bcc reply_to   [[name|None, addr], ...]   [] -> header absent (To with address_style group: empty group)
-    address_style  "plain" | "group"                group: To / Cc are written as  Zgroup: a@x, b@y;
+    address_style  "plain" | "group"                group: To / Cc are written as  Zgrpnm: a@x, b@y;
     date           [style, "YYYY-MM-DDTHH:MM:SS"]   style in DATE_STYLES (offset / obsolete forms); local wall time
     message_id     "<id@host>" | None               in_reply_to likewise
     structure      one of STRUCTURES
@@ -23,6 +23,16 @@ encoded-word kind, folding points, parameter syntax); the standard library parse
 independent reader: `validate(spec)` parses the bytes back and compares with `truth(spec)`, which is computed from the
 spec only.  Forms that cannot be expressed raise NotImplementedError (e.g. non-ASCII text with charset us-ascii,
 8-bit data with cte 7bit, a non-default body_html with a structure that has no html part).
+
+API: BASELINE, eml(spec), truth(spec), validate(spec), parse(data), diff(expected, got, body_mode), norm_text, expressible(spec),
+full_spec(spec), mbox(specs, opts), mbox_expected(specs, opts), mbox_truth(data), DOMAINS, deviations(d), deviation_key(spec), CAPS.
+
+Structures: plain | html | alternative[plain, html] | mixed-alt-att = mixed[alternative[plain, html], att..] |
+mixed-plain-att-att = mixed[plain, att..] | related-html-img = related[html, inline image/png with Content-ID] |
+mixed-mixed = mixed[mixed[plain, att0], att1..] | rfc822-attachment = mixed[plain, message/rfc822, att..].
+
+Dropped form: a non-ASCII display name that needs more than one encoded-word (the reference reader of CPython 3.12 keeps the
+white space between adjacent encoded-words of a phrase, against RFC 2047 6.2) raises NotImplementedError.
 
 Notes on forms that are de facto rather than de jure:
   * filename_style "rfc2047" (encoded-word inside a quoted parameter value) is forbidden by RFC 2047 section 5 but is
@@ -276,7 +286,12 @@ def _phrase_tokens(name: str) -> list:
         if name != name.strip():
             _nie("display name with leading/trailing white space")
         return ['"' + name.replace("\\", "\\\\").replace('"', '\\"') + '"']     # quoted-string
-    return _encoded_words(name, "utf-8", "utf-8", "B", first_max=60, maxlen=60)
+    words = _encoded_words(name, "utf-8", "utf-8", "B", first_max=64)     # "Reply-To: " + word stays within 76 columns
+    if len(words) > 1:
+        # RFC 2047 6.2 says the white space between adjacent encoded-words is dropped, but the reference reader
+        # (email.policy.default of CPython 3.12) keeps a space between them inside a display name: form dropped
+        _nie("non-ASCII display name that needs more than one encoded-word")
+    return words
 
 
 def _mailbox_tokens(name, addr: str) -> list:
@@ -364,7 +379,7 @@ def _disposition_lines(disp: str, filename, style: str) -> list:
             _nie("plain filename containing an encoded-word look-alike")
         params = ['filename="' + filename.replace("\\", "\\\\").replace('"', '\\"') + '"']
     elif style == "rfc2047":
-        words = _encoded_words(filename, "utf-8", "utf-8", "B", first_max=75)
+        words = _encoded_words(filename, "utf-8", "utf-8", "B", first_max=62)     # ' filename="' + word + '"' within 76 columns
         if len(words) != 1:
             _nie("rfc2047 filename that needs more than one encoded-word")
         params = ['filename="' + words[0] + '"']
@@ -392,7 +407,7 @@ def _disposition_lines(disp: str, filename, style: str) -> list:
 # ----------------------------------------------------------------------------------------------------------------------
 # body encoders (all produce ASCII/8-bit bytes with "\n" line ends; eml() converts to the requested line end)
 
-def _qp_line(data: bytes) -> list:
+def _qp_line(data: bytes, protect_first: bool = False) -> list:
     """Quoted-printable encoding of one logical line (RFC 2045 6.7); returns the physical lines (soft breaks included)."""
     toks = []
     for i, x in enumerate(data):
@@ -402,11 +417,15 @@ def _qp_line(data: bytes) -> list:
             toks.append("=%02X" % x)                                    # rule 3: no trailing white space
         else:
             toks.append(chr(x))
+    if protect_first and toks[:5] == ["F", "r", "o", "m", " "]:
+        toks[0] = "=46"
     lines, cur = [], ""
-    for t in toks:
+    for i, t in enumerate(toks):
         if len(cur) + len(t) > 75:
             lines.append(cur + "=")
             cur = ""
+            if toks[i:i + 5] == ["F", "r", "o", "m", " "]:
+                t = "=46"           # RFC 2049: a soft-wrapped physical line must not start with "From " (mbox writers would mangle it)
         cur += t
     lines.append(cur)
     return lines
@@ -428,7 +447,7 @@ def _qp_text(text: str, codec: str) -> bytes:
 def _qp_binary(data: bytes) -> bytes:
     """Binary-safe quoted-printable: CR and LF are always written as =0D / =0A (RFC 2045 6.7 rule 4), the physical lines are
     joined by soft line breaks only and there is no final line break (it would decode to a line break)."""
-    return "\n".join(_qp_line(data)).encode("ascii")
+    return "\n".join(_qp_line(data, protect_first=True)).encode("ascii")
 
 
 def _b64(data: bytes) -> bytes:
@@ -794,15 +813,15 @@ def _from_line(full: dict) -> bytes:
 
 def _mbox_specs(specs: list, opts: dict) -> list:
     """The specs as mbox() writes them: file-wide line end, optional extra body lines in message 0."""
+    for k in opts:
+        if k not in ("separator", "from_line_in_body"):
+            raise ValueError("mbox opts: unknown key %r" % (k,))
     sep = opts.get("separator", "standard")
     if sep not in ("standard", "no-blank-line", "crlf"):
         _nie("mbox separator %r" % (sep,))
     flb = opts.get("from_line_in_body")
     if flb not in (None, "escaped", "unescaped"):
         _nie("mbox from_line_in_body %r" % (flb,))
-    for k in opts:
-        if k not in ("separator", "from_line_in_body"):
-            raise ValueError("mbox opts: unknown key %r" % (k,))
     out = []
     for i, s in enumerate(specs):
         s = dict(s or {})
@@ -851,18 +870,20 @@ def mbox(specs: list, opts: dict | None = None) -> bytes:
 
 
 def mbox_expected(specs: list, opts: dict | None = None) -> dict:
-    """Ground truth of mbox(specs, opts) from the specs: {"messages": [truth...], "mboxo_body0": the plain body of message 0 as a
-    reader that does not undo the (lossy) ">From " escaping sees it, or None, "ambiguous": True when the file is not a valid mboxo
-    file (unescaped From line in a body) so that only mbox_truth() is a reference}."""
+    """Ground truth of mbox(specs, opts) from the specs: {"messages": [truth..., each with body_plain_mboxo / body_html_mboxo = the
+    body as a reader that does not undo the (lossy) ">From " escaping sees it], "mboxo_body0": that escaped plain body of message 0
+    when it differs from the original, else None, "ambiguous": True when the file is not a valid mboxo file (unescaped From line in
+    a body) so that only mbox_truth() is a reference}."""
     opts = opts or {}
     ms = [truth(s) for s in _mbox_specs(specs, opts)]
     flb = opts.get("from_line_in_body")
     escaped = None
-    for i, m in enumerate(ms):
-        e = ("\n" + m["body_plain"]).replace("\nFrom ", "\n>From ")[1:]
-        m["body_plain_mboxo"] = e
-        if i == 0 and e != m["body_plain"]:
-            escaped = e
+    for i, (m, s) in enumerate(zip(ms, _mbox_specs(specs, opts))):
+        b64 = full_spec(s)["cte"] == "base64"           # nothing to escape inside base64
+        for f in ("body_plain", "body_html"):
+            m[f + "_mboxo"] = m[f] if b64 else ("\n" + m[f]).replace("\nFrom ", "\n>From ")[1:]
+        if i == 0 and m["body_plain_mboxo"] != m["body_plain"]:
+            escaped = m["body_plain_mboxo"]
     return {"messages": ms, "mboxo_body0": escaped if flb != "unescaped" else None, "ambiguous": flb == "unescaped"}
 
 
